@@ -20,16 +20,16 @@ func CompileToGetCodeSet(ctx *RuntimeContext, typeptr uintptr) (*OpcodeSet, erro
 	}
 	index := (typeptr - typeAddr.BaseTypeAddr) >> typeAddr.AddrShift
 	setsMu.RLock()
-	if codeSet := cachedOpcodeSets[index]; codeSet != nil {
-		filtered, err := getFilteredCodeSetIfNeeded(ctx, codeSet)
+	cached := cachedOpcodeSets[index]
+	setsMu.RUnlock()
+	// the lock is released before filtering: encoding the field query re-enters this function
+	if cached != nil {
+		filtered, err := getFilteredCodeSetIfNeeded(ctx, cached)
 		if err != nil {
-			setsMu.RUnlock()
 			return nil, err
 		}
-		setsMu.RUnlock()
 		return filtered, nil
 	}
-	setsMu.RUnlock()
 
 	codeSet, err := newCompiler().compile(typeptr)
 	if err != nil {
